@@ -10,7 +10,7 @@ usage: check_all_seeds.py [-j N] [seed ids...]"""
 import glob, json, os, re, subprocess, sys, tempfile, shutil, threading
 from concurrent.futures import ThreadPoolExecutor
 
-IDS = "C01 C03 C04 C05 C06 C07 C09 C10 C11 C12 C13 C14 C15 C16 C17 C19 C20".split()
+IDS = "C01 C02 C03 C04 C05 C06 C07 C09 C10 C11 C12 C13 C14 C15 C16 C17 C19 C20".split()
 # base the round-1 seeds were written against, when verify.json does not say
 DEFAULT_BASE = "fcd760f12"
 
